@@ -8,6 +8,7 @@ import (
 	"strings"
 	"sync"
 	"sync/atomic"
+	"time"
 
 	"github.com/bfenetworks/bfe/bfe_util/hash_set"
 
@@ -303,6 +304,38 @@ func sigFirstFew(prop, sig string) bool {
 	return atomic.AddInt64(v.(*int64), 1) <= 2
 }
 
+// parallelUnlessStuck is vkit.Parallel, except that it gives up waiting when a
+// violation has already been recorded and no case completed for 15 s (a broken
+// structure may make bfe loop forever; the verdict "violated" is already
+// established then, the wall clock only ends the run). Without a violation it
+// keeps waiting: the driver's watchdog then reports inconclusive.
+func parallelUnlessStuck(r *vkit.Run, n int, fn func(i int)) (completed bool) {
+	var progress int64
+	done := make(chan struct{})
+	go func() {
+		vkit.Parallel(n, 0, func(i int) { fn(i); atomic.AddInt64(&progress, 1) })
+		close(done)
+	}()
+	last, idle := int64(-1), 0
+	for {
+		select {
+		case <-done:
+			return true
+		case <-time.After(5 * time.Second):
+			p := atomic.LoadInt64(&progress)
+			if p != last {
+				last, idle = p, 0
+				continue
+			}
+			idle++
+			if idle >= 3 && r.Violations() > 0 {
+				r.Count("run_cut_short_after_violation(workers_stuck_inside_bfe)", 1)
+				return false
+			}
+		}
+	}
+}
+
 func c20Check(r *vkit.Run, c *c20Case, shrink bool) {
 	var st c20Stats
 	var viols []c20Viol
@@ -463,14 +496,16 @@ func c20(r *vkit.Run) {
 		return
 	}
 	n := r.N(3000, 100000)
-	vkit.Parallel(n, 0, func(i int) {
+	if !parallelUnlessStuck(r, n, func(i int) {
 		g := r.Rng("history", i)
 		c := c20Gen(g)
 		if r.WantSample() && len(c.Ops) < 80 {
 			r.Sample(map[string]interface{}{"cfg": c.Cfg, "universe": c.Universe, "ops": len(c.Ops), "first_ops": c.Ops[:8]})
 		}
 		c20Check(r, c, true)
-	})
+	}) {
+		return
+	}
 	// outcomes the workload is supposed to reach
 	var missing []string
 	for _, name := range []string{"add_new", "add_existing", "add_refused_full", "remove_present", "remove_absent",
